@@ -88,7 +88,12 @@ func (s *Sniffer) SniffQuic() (d string, err error) {
 	s.quicNextRead = s.buf.Len()
 	sni, err := extractSniFromTls(quicutils.NewLinearLocator(s.quicCryptos))
 	if err != nil {
-		s.needMore = true
+		// More datagrams can complete a ClientHello that is still being
+		// reassembled. A hello that was walked to the end of its extensions and
+		// carries no server name (the client dialled an IP literal) will not
+		// change: asking for more would make the caller withhold the client's
+		// datagrams, retransmissions included, for good.
+		s.needMore = !errors.Is(err, ErrNotFound)
 		return "", ErrNotFound
 	}
 	return sni, nil
